@@ -1,8 +1,8 @@
 /-
   OdfModel.StyleClash — model of what `load()` and `save()` of odf/opendocument.py do to style definitions
   and style references when content.xml and styles.xml use one style name for two definitions (property C11).
-  Code as of /repo after 8f9573d (complete reference list + closure on save) and 0015fcf (indexes kept by the
-  DOM mutators).
+  Code as of /repo after 8f9573d (complete reference list + closure on save), 0015fcf (indexes kept by the
+  DOM mutators) and ff5b530 (content.xml seeded from common styles and body only).
 
   A package is seen in document order, flattened: per part the style definitions and the reference sites.
   Tree shape plays no role in the code modelled here (the index is filled element by element in document order,
@@ -32,8 +32,8 @@
              self._styles_ooo_fix[name] = newname                   automatic styles alike)
              name = newname; elt.setAttrNS(STYLENS,'name',name)   `mName`
          self._styles_dict[name] = elt
-  contentxml(): _used_auto_styles([styles, automaticstyles,     `save`: C10's `usedAuto` (OdfModel.Styles) on the
-                                    body])                          flattened containers, with the generated tables
+  contentxml(): _used_auto_styles([styles, body])               `save`: C10's `usedAuto` (OdfModel.Styles) on the
+     (since ff5b530 the automatic styles are no seed)               flattened containers, with the generated tables
   stylesxml():  _used_auto_styles([masterstyles])                  of followed attributes
 
   Resolution (`resolve`, the specification side; ODF 1.2 part 1, 16.1/16.2, 19.498 style:name): a reference
@@ -165,7 +165,7 @@ def keptFor (segs : List Node) (auto : List Def) : List Def :=
 
 /-- `save`: `contentxml()` and `stylesxml()` -/
 def save (d : Doc) : Pkg :=
-  { cAuto := keptFor [defsNode d.common, defsNode d.auto, sitesNode d.body] d.auto
+  { cAuto := keptFor [defsNode d.common, sitesNode d.body] d.auto
     body := d.body
     common := d.common
     sAuto := keptFor [sitesNode d.master] d.auto
